@@ -8,11 +8,12 @@ from props import c01
 
 SPEC = {
     "gen": ["Rotations", "GetHkl"],
-    "modules": ["DiffcalcProofs.Props.C02"],
+    "modules": ["DiffcalcProofs.Props.C02", "DiffcalcProofs.Props.C02Bisect"],
     "theorems": {"DiffcalcProofs.Props.C02": [
         "C02.filter_sound", "C02.tidy_preserves_constrained", "C02.tidy_axes_spec", "C02.passthrough_detSamp2",
         "C02.passthrough_refSamp2", "C02.passthrough_samp3", "C02.passthrough_detRefSamp", "C02.passthrough_detector",
-        "C02.getPosition_honours_axes"]},
+        "C02.getPosition_honours_axes"],
+        "DiffcalcProofs.Props.C02Bisect": ["C02.etaVals_rel", "C02.omegaBisect_relation", "C02.muBisect_relation", "C02.etaBisect_relation"]},
     "level": "proof",
     "rule": "all 185 implemented modes x requests from random physical positions + special values + the two degenerate 4-circle families "
             "(chi=0 with mu=nu=0; chi=90 with eta=delta=0) with the rewritten axis constrained / unconstrained / constrained to exactly 0; every "
@@ -20,7 +21,9 @@ SPEC = {
             "distinct = modes with at least one returned list",
     "assumptions": ["pseudo-angle constraints are compared within 1e-5 deg; the code's own filter uses 1e-7 deg"],
     "partial": "proved for all modes: constrained sample/detector axes are copied unchanged into every candidate and survive the tidy-up; every returned element passed the "
-               "read-back filter for reference / qaz / naz constraints. The bisect relations are covered by correspondence + oracle only.",
+               "read-back filter for reference / qaz / naz constraints. The bisect relations tan(mu) = tan(theta+omega) cos(qaz), sin(eta) = sin(theta+omega) sin(qaz) "
+               "are proved exact for every tuple of the three bisect branches (omega constrained: at that omega; mu or eta constrained: for some omega), with the solver's shortcut at "
+               "|asin| within 1e-8 of 90 deg spelled out in the statement; that the relation survives tidy-up and unit conversion of the returned position is by correspondence + oracle.",
     "search_widen": 4,
 }
 
